@@ -35,10 +35,23 @@ class CompiledView:
         fi = model.func(PR)
         self.ev = SymEval(model, inline=("make_update_inputs",))
         self.outer = self.ev.run_function(fi)
-        for name in ("_run_node", "_run_generation", "_run_S"):
-            c = self.outer.env.get(name)
+        self.names = {}
+        for name, arity in (("_run_node", 3), ("_run_generation", 2), ("_run_S", 1)):
+            c = self.outer.env.get(model.local_name(f"{PR}.{name}"))
+            if c is not None and c[0] == "closure":
+                self.outer.env[name] = c
+                self.names[name] = model.local_name(f"{PR}.{name}")
             if c is None or c[0] != "closure":
-                raise AnalysisError(f"closure {name} not found in make_run_partition_excl_supervisor")
+                # renamed: the runner's closures are told apart by their arity (kind, graph_state, timings) / (graph_state,
+                # timings_gen) / (graph_state); the one returned is _run_S
+                cands = [(n, v) for n, v in self.outer.env.items() if v[0] == "closure" and v[1] in self.ev.closures and self.ev.closures[v[1]].kind == "def"
+                         and len(self.ev.closures[v[1]].node.args.args) == arity and n not in ("_run_node", "_run_generation", "_run_S")]
+                if arity == 1 and self.outer.ret[0] == "closure":
+                    cands = [(n, v) for n, v in cands if v == self.outer.ret] or cands
+                if len(cands) != 1:
+                    raise AnalysisError(f"closure {name} not found in make_run_partition_excl_supervisor")
+                self.outer.env[name] = cands[0][1]
+                self.names[name] = cands[0][0]
         self.run_node = self._invoke("_run_node", [S("kind"), S("graph_state"), S("timings_node")])
         self.run_generation = self._invoke("_run_generation", [S("graph_state"), S("timings_gen")])
         self.run_S = self._invoke("_run_S", [S("graph_state")])
@@ -75,7 +88,7 @@ class CompiledView:
         return Sub(self.ev, self.ev.events[n0:], ret, self.outer.frame)
 
     def fi(self, name: str):
-        return self.model.func(f"{PR}.{name}")
+        return self.model.func(f"{PR}.{self.names.get(name, name)}")
 
 
 def slot_elem(sub: Sub) -> Optional[T.Term]:
